@@ -270,9 +270,16 @@ func c49(c *Ctx) {
 				}
 				c.Unreachable(mu, "occupied-slot-rejected", Truth(empty, false))
 				c.MustFact(mu, "stored-only-when-slot-empty", Truth(empty, true))
+				// wildcard slot (port 0) exactly for a chain without source ports; a chain with ports is stored under each of its ports
+				if ConstInt(0)(mu.Key) {
+					c.MustFact(mu, "wildcard-slot-only-without-source-ports", CmpInt(LenOf(AnyV), token.EQL, 0))
+				} else {
+					c.MustFact(mu, "per-port-slots-only-with-source-ports", CmpInt(LenOf(AnyV), token.NEQ, 0))
+				}
 			}
 		}
 		c.Expect(n == 2, nil, f, "two-insert-sites", "expected the wildcard-port and the per-port insertion")
+		c.Expect(c.NoEarlyExit(f, AnyV, "every-source-port-gets-the-chain") >= 1, nil, f, "port-walk", "no walk over the source ports")
 	})
 }
 
